@@ -484,3 +484,96 @@ Proof.
 Qed.
 
 End DFS.
+
+(* ---------------------------------------------------------------------------------------------- *)
+(* Acceptance does not depend on how the variables are numbered: two dependency tables that are the same
+   graph up to an injective renumbering pi of the variables are both accepted or both rejected.  (The
+   ORDER of the result does depend on the numbering: the DFS visits keys and dependencies in increasing
+   variable id, and the resolver numbers globals in source order.) *)
+Section Iso.
+Context {A B : Type}.
+Variable key_of : A -> N.
+Variable key_of' : B -> N.
+Variable t : table A.
+Variable t' : table B.
+Variable pi : N -> N.
+Hypothesis pi_inj : forall x y, pi x = pi y -> x = y.
+Hypothesis Hkey : forall k deps a, tbl_get t k = Some (deps, a) -> key_of a = k.
+Hypothesis Hkey' : forall k deps a, tbl_get t' k = Some (deps, a) -> key_of' a = k.
+
+(* t' is t renumbered by pi: same keys, same dependency sets *)
+Hypothesis iso_fwd : forall k deps a, tbl_get t k = Some (deps, a) ->
+  exists deps' a', tbl_get t' (pi k) = Some (deps', a') /\ forall d, In d deps' <-> exists d0, In d0 deps /\ d = pi d0.
+Hypothesis iso_keys : forall k', is_key t' k' -> exists k, is_key t k /\ k' = pi k.
+
+Lemma iso_is_key k : is_key t k -> is_key t' (pi k).
+Proof. intros [[deps a] H]. destruct (iso_fwd _ _ _ H) as (deps' & a' & H' & _). eexists; eauto. Qed.
+
+Lemma iso_edge g d : edge t g d -> edge t' (pi g) (pi d).
+Proof.
+  intros (deps & a & Hg & Hin & Hk). destruct (iso_fwd _ _ _ Hg) as (deps' & a' & Hg' & Hd).
+  exists deps', a'. split; [assumption|]. split; [apply Hd; eauto|apply iso_is_key; assumption].
+Qed.
+
+Lemma iso_edge_back g d : edge t' (pi g) (pi d) -> is_key t g -> edge t g d.
+Proof.
+  intros (deps' & a' & Hg' & Hin & Hk) [[deps a] Hg]. destruct (iso_fwd _ _ _ Hg) as (deps2 & a2 & Hg2 & Hd).
+  rewrite Hg' in Hg2. inversion Hg2; subst. apply Hd in Hin as (d0 & Hin0 & E). apply pi_inj in E. subst d0.
+  exists deps, a. split; [assumption|]. split; [assumption|].
+  destruct (iso_keys _ Hk) as (k & Hkk & E). apply pi_inj in E. subst. assumption.
+Qed.
+
+Lemma iso_reach g d : reach t g d -> reach t' (pi g) (pi d).
+Proof.
+  induction 1 as [g d He|g m d _ IH1 _ IH2]; [apply t_step; apply iso_edge; assumption|].
+  eapply t_trans; eauto.
+Qed.
+
+Lemma iso_reach_back : forall g' d', reach t' g' d' ->
+  forall g, g' = pi g -> is_key t g -> exists d, d' = pi d /\ is_key t d /\ reach t g d.
+Proof.
+  induction 1 as [g' d' He|g' m' d' _ IH1 _ IH2]; intros g -> Hg.
+  - assert (Hkd : is_key t' d') by (destruct He as (? & ? & _ & _ & Hk); exact Hk).
+    destruct (iso_keys _ Hkd) as (d & Hd & ->). exists d. split; [reflexivity|]. split; [assumption|].
+    apply t_step. apply iso_edge_back; assumption.
+  - destruct (IH1 g eq_refl Hg) as (m & -> & Hm & R1). destruct (IH2 m eq_refl Hm) as (d & -> & Hd & R2).
+    exists d. split; [reflexivity|]. split; [assumption|]. eapply t_trans; eauto.
+Qed.
+
+Lemma reach_is_key a b : reach t' a b -> is_key t' a.
+Proof.
+  induction 1 as [a b (deps & x & H & _ & _)|a m b _ IH1 _ _]; [eexists; eauto|exact IH1].
+Qed.
+
+Lemma iso_cycle : has_cycle t <-> has_cycle t'.
+Proof.
+  split.
+  - intros [k Hk]. exists (pi k). apply iso_reach. assumption.
+  - intros [k' Hk'].
+    assert (Hkey0 : is_key t' k') by (eapply reach_is_key; eauto).
+    destruct (iso_keys _ Hkey0) as (k & Hk & ->).
+    destruct (iso_reach_back _ _ Hk' k eq_refl Hk) as (d & E & _ & R). apply pi_inj in E. subst d.
+    exists k. assumption.
+Qed.
+
+Theorem order_accept_iso :
+  NoDup (map fst t) -> NoDup (map fst t') ->
+  ((exists l, order t = OOk l) <-> (exists l, order t' = OOk l)).
+Proof.
+  intros Hn Hn'.
+  assert (H1 : (exists l, order t = OOk l) <-> ~ has_cycle t).
+  { split.
+    - intros [l Hl]. eapply order_complete; eauto.
+    - intros Hc. destruct (order t) as [l|c|] eqn:E; [eauto| |].
+      + exfalso. apply Hc. eapply order_cycle; eauto.
+      + exfalso. eapply (order_fuel_enough key_of t Hkey); eauto. }
+  assert (H2 : (exists l, order t' = OOk l) <-> ~ has_cycle t').
+  { split.
+    - intros [l Hl]. eapply order_complete; eauto.
+    - intros Hc. destruct (order t') as [l|c|] eqn:E; [eauto| |].
+      + exfalso. apply Hc. eapply order_cycle; eauto.
+      + exfalso. eapply (order_fuel_enough key_of' t' Hkey'); eauto. }
+  rewrite H1, H2, iso_cycle. reflexivity.
+Qed.
+
+End Iso.
